@@ -15,6 +15,9 @@ structure Component (σ : Type) where
   step  : σ → Rec → σ × List Rec × List String
   /-- property predicate on the implementation trace (ops with their observations) -/
   prop  : List (Rec × List Rec) → Option String
+  /-- oracle-aware model step: also sees the implementation's observations of this operation, from
+  which it may take *only* the values declared as oracle inputs of the model -/
+  stepO : Option (σ → Rec → List Rec → σ × List Rec × List String) := none
 
 namespace Driver
 
@@ -30,7 +33,9 @@ def finishCase {σ} (c : Component σ) (acc : CaseAcc) : IO Unit := do
   let mut cov : List String := []
   let mut i := 0
   for (op, obs) in acc.ops do
-    let (s', mobs, tags) := c.step s op
+    let (s', mobs, tags) := match c.stepO with
+      | some f => f s op obs.toList
+      | none => c.step s op
     s := s'
     for t in tags do
       if !cov.contains t then cov := t :: cov
